@@ -256,7 +256,7 @@ def cond_case(draw, tier):
 def join_case(draw, tier, allow_detach_blocked=True):
     threads = draw(ints(1, T(tier, 3, 4)))
     nt = draw(ints(1, T(tier, 3, 5)))
-    scen_pool = ["join", "tryjoin", "detach", "contend_jj", "contend_jt", "detachjoin"]
+    scen_pool = ["join", "tryjoin", "detach", "contend_jj", "contend_jt", "detachjoin", "contend_finished", "contend_finished"]
     if allow_detach_blocked:
         scen_pool.append("detachblocked")
     scens = [draw(st.sampled_from(scen_pool)) for _ in range(nt)]
@@ -282,13 +282,20 @@ def join_case(draw, tier, allow_detach_blocked=True):
             actors.append(small_ops(draw, 2) + [op("tryjoin", t, 1)])
         elif sc == "detachjoin":
             actors.append(pre + [op("detachjoin", t)])
+        elif sc == "contend_finished":
+            # 2-3 contenders racing on an UNGATED target (it may already have finished): at most one may succeed
+            kinds = [draw(st.sampled_from(["join", "tryjoin", "tryjoin"])) for _ in range(draw(ints(2, 3)))]
+            for i, k in enumerate(kinds):
+                p2 = pre if i == 0 else small_ops(draw, 2)
+                actors.append(p2 + [op("join", t, 1) if k == "join" else op("tryjoin", t, 3, draw(ints(0, 1)))])
         elif sc == "detachblocked":
             j = base + len(actors)
             actors.append(pre + [op("join", t, 2)])
             actors.append(small_ops(draw, 1) + [op("detachblocked", t, j)])
     fibers = targets + actors
     classes = ["threads=%d" % threads] + sorted(set(scens))
-    return {"harness": "join", "threads": threads, "cfg": {}, "fibers": fibers, "classes": classes}
+    cfg = {"allow_freed": 1} if "contend_finished" in scens else {}
+    return {"harness": "join", "threads": threads, "cfg": cfg, "fibers": fibers, "classes": classes}
 
 
 # --------------------------------------------------------------------------- C11
@@ -622,7 +629,11 @@ def ds_part(name, strat_fn, share=1.0):
 @st.composite
 def deque_case(draw, tier):
     nth = draw(ints(1, 3))
-    shape = draw(st.sampled_from(["single_element_races", "growth_under_steal", "mixed", "mixed"]))
+    shape = draw(st.sampled_from(["single_element_races", "growth_under_steal", "two_growths_one_steal", "mixed", "mixed"]))
+    if shape == "two_growths_one_steal":
+        owner = [op("push", draw(ints(1, 40))), op("push", draw(ints(260, 300))), op("push", draw(ints(260, 300))), op("pop", draw(ints(0, 3)))]
+        fibers = [owner] + [[op("steal", draw(ints(1, 3)), draw(ints(0, 1)))] for _ in range(nth)]
+        return {"harness": "deque", "threads": 1, "cfg": {}, "fibers": fibers, "classes": ["thieves=%d" % nth, shape]}
     owner = []
     for _ in range(draw(ints(2, T(tier, 8, 14)))):
         if shape == "single_element_races":
@@ -642,6 +653,14 @@ def deque_case(draw, tier):
 
 @st.composite
 def mpmc_case(draw, tier):
+    if draw(ints(0, 3)) == 0:
+        # "stalled popper": few records (small retire threshold), one popper doing a single pop, another thread cycling
+        # enough push/pop pairs for scans and node reuse to happen while the first one is held back
+        n = draw(ints(9, 16))
+        worker = [op("push", n), op("pop", n), op("push", draw(ints(1, 4)))]
+        victim = small = [op("pop", draw(ints(1, 2)), draw(ints(0, 1)))]
+        fibers = [worker, victim] if draw(st.booleans()) else [victim, worker]
+        return {"harness": "mpmc", "threads": 1, "cfg": {"recycle": 1, "lazy_records": 1}, "fibers": fibers, "classes": ["stalled_popper_shape", "recycle", "lazy_records"]}
     npush = draw(ints(1, 3))
     npop = draw(ints(1, 3))
     recycle = draw(ints(0, 1))
@@ -735,6 +754,7 @@ def dwcas_case(draw, tier):
 def hazard_case(draw, tier):
     nth = draw(ints(1, 4))
     k = draw(ints(1, 4))
+    far = draw(st.booleans())   # nodes from two arena regions more than 2^31 bytes apart
     fibers = []
     for t in range(nth):
         ops = []
@@ -748,12 +768,12 @@ def hazard_case(draw, tier):
             elif kind in ("deref", "release"):
                 ops.append(op(kind, draw(ints(0, k - 1))))
             elif kind == "replace":
-                ops.append(op("replace", draw(ints(0, 3)), draw(ints(0, 3))))
+                ops.append(op("replace", draw(ints(0, 3)), draw(ints(0, 3)) | (128 if far and draw(st.booleans()) else 0)))
             else:
                 ops.append(op("scan"))
         fibers.append(ops)
     late = sum(1 for f in fibers if any(o[0] == "reg" for o in f))
-    return {"harness": "hazard", "threads": 1, "cfg": {"slots": k}, "fibers": fibers, "classes": ["records=%d" % nth, "slots=%d" % k, "late_registration" if late else "all_upfront"]}
+    return {"harness": "hazard", "threads": 1, "cfg": {"slots": k}, "fibers": fibers, "classes": ["records=%d" % nth, "slots=%d" % k, "late_registration" if late else "all_upfront", "far_addresses" if far else "near_addresses"]}
 
 
 def c02_parts(tier):
